@@ -31,7 +31,7 @@ const (
 
 var npOuterNames = []string{"SafeFormat", "Format", "Sprintfn function"}
 var npCallNames = []string{"Print(x)", "Print(secret, x)", "Print(x, secret)", "Printf(%v, x)", "Printf(lit %s %v, secret, x)", "Printf(%d|%+v, 7, x)", "Print(Safe(1), x)"}
-var npEntryNames = []string{"Sprint(v)", "Sprintf(x %v y %s, v, tail)", "Sprint([]interface{}{v, z})", "StringBuilder.Print(v) after an unsafe write"}
+var npEntryNames = []string{"Sprint(v)", "Sprintf(x %v y %s, v, tail)", "Sprint([]interface{}{v, z})", "StringBuilder.Print(v) after an unsafe write", "Sprint(Safe(v))", "Sprintf(%v-, Unsafe(v))"}
 
 // payloads whose own printing panics
 type npPayStr struct{ s string }
@@ -147,6 +147,10 @@ func npEval(cs npCase) (illFormed, leak, lost string, out redact.RedactableStrin
 		case 2:
 			pre = "["
 			out = redact.Sprint([]interface{}{v, "z"})
+		case 4:
+			out = redact.Sprint(redact.Safe(v))
+		case 5:
+			out = redact.Sprintf("%v-", redact.Unsafe(v))
 		default:
 			var sb redact.StringBuilder
 			sb.UnsafeString("k")
@@ -166,21 +170,61 @@ func npEval(cs npCase) (illFormed, leak, lost string, out redact.RedactableStrin
 		illFormed = fmt.Sprintf("%s -> %q: %s", desc, out, d)
 	}
 	outside := string(EnvDel(o))
+	if cs.Entry == 4 {
+		outside = "" // the caller declared the whole operand safe
+	}
 	for _, tok := range []string{npOperand, npPayload, npPartial} {
 		if strings.Contains(outside, tok) {
 			leak = fmt.Sprintf("%s -> %q: the unsafe text %q is outside the redaction envelopes (redacted form %q)", desc, out, tok, out.Redact())
 			break
 		}
-		if red := string(out.Redact()); strings.Contains(red, tok) {
+		if red := string(out.Redact()); cs.Entry != 4 && strings.Contains(red, tok) {
 			leak = fmt.Sprintf("%s -> %q: the unsafe text %q survives Redact(): %q", desc, out, tok, red)
 			break
 		}
 	}
 	es, _, _ := expect(ops)
-	if got := string(Strip(o)); illFormed == "" && !strings.HasPrefix(got, pre+string(es)) {
+	if got := string(Strip(o)); illFormed == "" && cs.Entry < 4 && !strings.HasPrefix(got, pre+string(es)) {
 		lost = fmt.Sprintf("%s -> %q: stripped %q does not begin with %q (what the method wrote before the nested call)", desc, out, got, pre+string(es))
 	}
 	return
+}
+
+// npProbes: after the case - whether its panic was reported or reached the caller - later calls classify their
+// operands as in a fresh process (a printer abandoned or recycled by the panic path must not keep an override).
+func npProbes() string {
+	for round := 0; round < 3; round++ {
+		if got := string(redact.Sprintf("%v|%v", redact.Unsafe(safeT("s3c")), "u")); got != mStart+"s3c"+mEnd+"|"+mStart+"u"+mEnd {
+			return fmt.Sprintf("a later Sprintf(%%v|%%v, Unsafe(safeT(s3c)), u) returns %q", got)
+		}
+		if got := string(redact.Sprint(redact.Safe("pub"), 7)); got != "pub "+mStart+"7"+mEnd {
+			return fmt.Sprintf("a later Sprint(Safe(pub), 7) returns %q", got)
+		}
+		if got := string(redact.Sprintf("%05d|%s", 5, redact.Safe("t"))); got != mStart+"00005"+mEnd+"|t" {
+			return fmt.Sprintf("a later Sprintf(%%05d|%%s, 5, Safe(t)) returns %q", got)
+		}
+	}
+	return ""
+}
+
+// npOwnClass: the result of the case itself, when the operand was wrapped: nothing enclosed under Safe(),
+// everything enclosed under Unsafe().
+func npOwnClass(cs npCase, out redact.RedactableString) string {
+	if out == "(panic reached the caller)" || cs.Outer == 2 {
+		return ""
+	}
+	o := []byte(out)
+	switch cs.Entry {
+	case 4:
+		if string(Strip(o)) != string(o) {
+			return fmt.Sprintf("case %+v: Sprint(Safe(v)) = %q contains markers", cs, out)
+		}
+	case 5:
+		if got := strings.ReplaceAll(string(EnvDel(o)), "\n", ""); got != "-" { // line feeds are outside by C03
+			return fmt.Sprintf("case %+v: Sprintf(%%v-, Unsafe(v)) = %q: outside the envelopes %q, want only the literal", cs, out, got)
+		}
+	}
+	return ""
 }
 
 func npCases(maxBody int) []npCase {
@@ -207,7 +251,8 @@ func npCases(maxBody int) []npCase {
 	return cases
 }
 
-// npSection registers the section for property P reporting class which (0 ill-formed, 1 leak, 2 all three).
+// npSection registers the section for property P reporting class which (0 ill-formed, 1 leak, 2 all three,
+// 3 classification of LATER calls).
 func npSection(c *Ctx, P string, which int) {
 	maxBody := 2
 	if !c.Quick() {
@@ -218,6 +263,15 @@ func npSection(c *Ctx, P string, which int) {
 		w.Eval()
 		ill, leak, lost, out := npEval(cases[i])
 		w.SeenS(string(out))
+		if which == 3 {
+			if d := npOwnClass(cases[i], out); d != "" {
+				w.Fail("classification-after-nested-panic", cases[i], d)
+			}
+			if d := npProbes(); d != "" {
+				w.Fail("stale-classification-after-nested-panic", cases[i], fmt.Sprintf("after case %+v (result %q): %s", cases[i], out, d))
+			}
+			return
+		}
 		switch {
 		case (which == 0 || which == 2) && ill != "":
 			w.Fail("ill-formed-after-nested-panic", cases[i], ill)
@@ -233,12 +287,19 @@ func npSection(c *Ctx, P string, which int) {
 }
 
 func init() {
-	for pi, P := range []string{"C01", "C02", "C11"} {
+	for pi, P := range []string{"C01", "C02", "C11", "C06"} {
 		which := pi
 		replayers[P+"/nested-double-panic"] = func(c *Ctx, raw json.RawMessage) string {
 			var cs npCase
 			json.Unmarshal(raw, &cs)
 			ill, leak, lost, _ := npEval(cs)
+			if which == 3 {
+				_, _, _, out := npEval(cs)
+				if d := npOwnClass(cs, out); d != "" {
+					return d
+				}
+				return npProbes()
+			}
 			switch {
 			case (which == 0 || which == 2) && ill != "":
 				return ill
